@@ -51,8 +51,10 @@ BaseCode(kind) == CASE kind = "has" -> "contained" [] kind = "upper" -> "contain
 NegKind(kind) == CASE kind = "len" -> "nlen" [] kind = "has" -> "nhas" [] kind = "upper" -> "nupper" [] kind = "special" -> "nspecial" [] kind = "pre" -> "npre" [] OTHER -> kind
 
 \* (Bool().EQ takes no options)
-TestCalls(kinds) == {Call("t", k, n, o.code, o.path, o.msg) : k \in kinds, n \in ValsOf.n,
-                                                              o \in IF ChainTy = "bool" THEN {[code |-> "", path |-> "", msg |-> ""]} ELSE OptSets}
+\* (Contains("") / HasPrefix("") hold for every string: under Not() they fail for every string)
+ArgsOf(k) == IF k \in {"has", "pre"} THEN ValsOf.n \cup {0} ELSE ValsOf.n
+TestCalls(kinds) == {Call("t", k, n, o.code, o.path, o.msg) : k \in kinds, n \in UNION {ArgsOf(kk) : kk \in kinds},
+                                                              o \in IF ChainTy = "bool" THEN {[code |-> "", path |-> "", msg |-> ""]} ELSE OptSets} \ {c \in [op : {"t"}, kind : kinds, n : {0}, code : {"", "cc"}, path : {"", "pp"}, msg : {"", "mm", "MF"}] : c.kind \notin {"has", "pre"}}
 OtherCalls ==
   {Call("tf", IF ChainTy = "bool" THEN "eq" ELSE "lte", IF ChainTy = "bool" THEN 1 ELSE 3, o.code, o.path, o.msg) : o \in {x \in OptSets : x.code # ""}}
   \cup {Call("req", "", 0, "", "", m) : m \in {"", "rm"}}
